@@ -22,6 +22,7 @@ NSHARDS = 32
 
 EXTRA = [
     ['aa1', 'bb1', 'cc2', 'dd2'],                       # count ties everywhere
+    ['mydogatemyhomework77!!', 'mydogatemyhomework77!!', 'abcdefghijklmnopqrstu', 'abcdefghijklmnopqrstuv', 'short1', 'short1', '1234567890123456789012'],   # longer than the OMEN limit (21)
     ['say"hi"', 'x"!"y', "it's", 'a\\b', 'c,d', 'e;f', '"', "'", 'g|h', '#x', ' "q" '],   # quote, escape and separator characters of common file formats
     ['password1'] * 3 + ['letmein1'] * 3 + ['x1'],
     ['bob@gmail.com'] * 5 + ['www.site.com'] * 3 + ['pass12'],   # unsupported structures dominate
